@@ -2,6 +2,8 @@
 package router_address
 
 import (
+	"strings"
+
 	"github.com/go-i2p/logger"
 	"github.com/samber/oops"
 
@@ -128,8 +130,10 @@ func parseTransportOptions(ra *RouterAddress, routerData []byte) ([]byte, error)
 		}).Error("error parsing RouterAddress")
 	}
 	ra.TransportOptions = transportOptions
-	if transportOptions == nil && len(errs) > 0 {
-		return remainder, oops.Errorf("error parsing RouterAddress options: %v", errs[0])
+	for _, err := range errs {
+		if !strings.Contains(err.Error(), "data exists beyond length of mapping") {
+			return remainder, oops.Errorf("error parsing RouterAddress options: %v", err)
+		}
 	}
 	return remainder, nil
 }
